@@ -88,6 +88,7 @@ class FnContract:
         self.inserts = []     # {"where": "before"/"after", "pat": str, "lines": [...], "src_line": n}
         self.canary = True
         self.begin = []       # ghost text placed at the very start of the body
+        self.closures = []    # {"pat": closure text, "lines": annotated closure header (ghost ensures)}
         self.attrs = []       # ghost-only attributes placed before the fn (e.g. #[verifier::loop_isolation(false)])
 
 
@@ -135,6 +136,14 @@ def parse_contracts(path):
                 if cur is None:
                     raise Undecided("bad-contract-file", f"{path}:{ln}: {st}")
                 cur.attrs.append(st[6:].strip())
+                continue
+            if st.startswith("@closure "):
+                m = re.match(r'@closure\s+"(.*)"\s*$', st)
+                if not m or cur is None:
+                    raise Undecided("bad-contract-file", f"{path}:{ln}: {st}")
+                cl = {"pat": m.group(1), "lines": [], "src_line": ln}
+                cur.closures.append(cl)
+                sect = cl["lines"]
                 continue
             if st == "@begin":
                 if cur is None:
@@ -246,6 +255,32 @@ def splice_item(item, contracts, unit_name, used, canaries):
     """Returns item text with contracts spliced in and markers removed."""
     text = item["text"]
     fninfo = {f["name"]: f for f in item["fns"]}
+
+    # ---- closure contracts: `|x| body`  ->  `|x: T| -> (out: U) ensures .. { body }`  (ghost ensures; the body is unchanged)
+    for q, f in fninfo.items():
+        c = contracts.get(q)
+        if not c or not c.closures:
+            continue
+        for cl in c.closures:
+            m = None
+            for mm in BODY_RE.finditer(text):
+                if mm.group(1) == q:
+                    m = mm
+            if m is None:
+                raise Undecided("lost-anchor", f"no body marker for {q}")
+            ob = text.rfind("{", 0, m.start())
+            end = _find_matching(text, ob, "{", "}")
+            region = text[m.end():end]
+            pat = cl["pat"]
+            n = region.count(pat)
+            if n == 0:
+                raise Undecided("lost-anchor", f"{q}: closure `{pat}` not found")
+            bar2 = pat.index("|", pat.index("|") + 1)
+            body = pat[bar2 + 1:].strip()
+            header = " ".join(t.strip() for t, _ in cl["lines"])
+            region = region.replace(pat, f"{header} {{ {body} }}")
+            text = text[:m.end()] + region + text[end:]
+        used.add(q)
 
     # ---- before/after insertions (fn regions are delimited by body markers)
     for q, f in fninfo.items():
@@ -425,6 +460,9 @@ def assemble(unit, ex, extra_spec=""):
     if extra_spec:
         parts.append(extra_spec)
     canaries = []
+    # ---- callee contracts imported from another unit (modular verification: contracts, not bodies)
+    for imp in unit.get("import_contracts", []):
+        parts.append(import_contract_stubs(imp))
     for it in ex["items"]:
         parts.append(f"//@@ item {it['file']}:{it['line']} {it['selector']}\n")
         parts.append(splice_item(it, contracts, unit["name"], used, canaries))
@@ -436,6 +474,61 @@ def assemble(unit, ex, extra_spec=""):
             raise Undecided("lost-anchor", f"contract for `{q}` but no such function was extracted")
     unit["_canaries"] = canaries
     return "".join(parts), contracts, order
+
+
+def import_contract_stubs(imp):
+    """external_body stubs of another unit's functions carrying exactly that unit's contracts.
+    Signatures come from /repo (vx), contracts from that unit's contracts.vc; the obligation that the bodies satisfy
+    them is discharged by that unit's own check (listed in the ledger as a cross-unit assumption)."""
+    src_unit = load_unit(imp["unit"])
+    ex = extract(src_unit)
+    contracts, _ = parse_contracts(os.path.join(src_unit["dir"], "contracts.vc"))
+    want = set(imp.get("fns", []))
+    out = [f"//@@ file imported-contracts:{imp['unit']}\n"]
+    if imp.get("as_mod"):
+        out.append(f"pub mod {imp['as_mod']} {{\nuse super::*;\nuse vstd::prelude::*;\n")
+    seen = set()
+    for it in ex["items"]:
+        if it["kind"] != "fn" or (want and it["name"] not in want):
+            continue
+        c = contracts.get(it["name"])
+        if c is None or not c.header:
+            continue
+        tmp_contracts = {it["name"]: c}
+        saved = (c.begin, c.inserts, c.loops, c.canary, c.attrs)
+        c.begin, c.inserts, c.loops, c.canary, c.attrs = [], [], {}, False, []
+        try:
+            text = splice_item(it, tmp_contracts, imp["unit"], set(), [])
+        finally:
+            c.begin, c.inserts, c.loops, c.canary, c.attrs = saved
+        k = text.find("//@@ end\n{")
+        if k < 0:
+            raise Undecided("lost-anchor", f"import_contracts: cannot cut body of {it['name']}")
+        head = text[:k]
+        # drop the decreases clause (termination is the exporting unit's obligation) and the sentinels
+        lines = []
+        skip = False
+        for l in head.split("\n"):
+            st = l.strip()
+            if st.startswith("//@@"):
+                continue
+            if st.startswith("decreases"):
+                skip = True
+                continue
+            if skip and re.match(r"^(requires|ensures|recommends)\b", st):
+                skip = False
+            if not skip:
+                lines.append(TAG_RE.sub("", l))
+        sig = "\n".join(lines)
+        sig = re.sub(r"^(\s*)(pub\s+)?fn\s", r"\1pub fn ", sig, count=1, flags=re.M)
+        out.append("#[verifier::external_body]\n" + sig.rstrip() + "\n{ unimplemented!() }\n")
+        seen.add(it["name"])
+    for w in want - seen:
+        raise Undecided("lost-anchor", f"import_contracts: no contract for {w} in unit {imp['unit']}")
+    if imp.get("as_mod"):
+        out.append("}\n")
+    out.append("//@@ end\n")
+    return "".join(out)
 
 
 def line_map(gen_text):
